@@ -30,6 +30,37 @@ pub fn dispatch(k: &str, t: &[&str]) -> Option<String> {
             let ms2 = MetaStore::deserialize(&bytes).unwrap();
             Some(format!("{} {}", ms2.next_wal_id, ms2.earliest_unflushed_wal_id))
         }
+        "metastore_roundtrip_full" => {
+            // next earliest then per partition: table/id/offset/len/key:last:size,...
+            let mut ms = MetaStore { next_wal_id: num(t[0]), earliest_unflushed_wal_id: num(t[1]), partitions: Default::default() };
+            for tok in &t[2..] {
+                let p: Vec<&str> = tok.split('/').collect();
+                let mut subpartitions = vec![];
+                let mut by_last = BTreeMap::new();
+                if p[4] != "-" {
+                    for (k, s) in p[4].split(',').enumerate() {
+                        let q: Vec<&str> = s.split(':').collect();
+                        by_last.insert(q[1].to_string(), k);
+                        subpartitions.push(SubpartitionMetadata { size_bytes: num(q[2]), subpartition_key: q[0].to_string(), last_column: q[1].to_string(), loaded: Arc::new(AtomicBool::new(false)) });
+                    }
+                }
+                let pm = PartitionMetadata { id: num(p[1]), tablename: p[0].to_string(), offset: num(p[2]), len: num(p[3]), subpartitions, subpartitions_by_last_column: by_last };
+                ms.partitions.entry(p[0].to_string()).or_default().insert(pm.id, pm);
+            }
+            let mut tracer = crate::observability::SimpleTracer::default();
+            let bytes = ms.serialize(&mut tracer);
+            let ms2 = MetaStore::deserialize(&bytes).unwrap();
+            let mut parts = vec![];
+            for (tname, ps) in ms2.partitions.iter() {
+                for (key, p) in ps.iter() {
+                    let st = if p.subpartitions.is_empty() { "-".to_string() } else { p.subpartitions.iter().map(|s| format!("{}:{}:{}:{}", s.subpartition_key, s.last_column, s.size_bytes, s.loaded.load(std::sync::atomic::Ordering::SeqCst))).collect::<Vec<_>>().join(",") };
+                    let rt = if p.subpartitions_by_last_column.is_empty() { "-".to_string() } else { p.subpartitions_by_last_column.iter().map(|(a, b)| format!("{}:{}", a, b)).collect::<Vec<_>>().join(",") };
+                    parts.push((tname.clone(), p.id, format!("{}/{}/{}/{}/{}/{}/{}/{}", tname, key, p.tablename, p.id, p.offset, p.len, st, rt)));
+                }
+            }
+            parts.sort();
+            Some(format!("{} {} {}", ms2.next_wal_id, ms2.earliest_unflushed_wal_id, parts.iter().map(|x| x.2.clone()).collect::<Vec<_>>().join(" ")))
+        }
         "subpartition_key" => {
             // PartitionMetadata with sub-partitions whose last columns are the given (hex) names, keys key0, key1, ...
             let lasts: Vec<String> = t[0].split(',').map(|h| unsafe { String::from_utf8_unchecked(unhex(h)) }).collect();
